@@ -417,7 +417,7 @@ theorem c02_du (cfg : Cfg) (env : Env) (m : Mods) (disc : Nat) (dmap : List (Nat
       match lookupDisc dv dmap with
       | some t => acc env t (.map .str .any es) = true
       | none => ∃ o ∈ opts, acc env o (.map .str .any es) = true := by
-  simp only [run, parseDU, V.isNil, Bool.false_and, Bool.false_eq_true, ↓reduceIte, hd]
+  simp only [run, parseDU, duNil, Bool.false_and, Bool.false_eq_true, ↓reduceIte, hd]
   cases lookupDisc dv dmap with
   | some t =>
     simp only [acc]
@@ -433,7 +433,7 @@ theorem c02_du (cfg : Cfg) (env : Env) (m : Mods) (disc : Nat) (dmap : List (Nat
 theorem c02_du_missing (cfg : Cfg) (env : Env) (m : Mods) (disc : Nat) (dmap : List (Nat × Mid))
     (opts : List Mid) (es : Option (List (V × V))) (hd : lookupKey disc (es.getD []) = none) :
     (run cfg env (.du m disc dmap opts) (.map .str .any es)).isOk = false := by
-  simp [run, parseDU, V.isNil, hd, Res.isOk]
+  simp [run, parseDU, duNil, hd, Res.isOk]
 
 /-! ### lazy -/
 
